@@ -6,6 +6,7 @@
 package main
 
 import (
+	"encoding/json"
 	"flag"
 	"fmt"
 	"os"
@@ -14,6 +15,7 @@ import (
 
 	"verif/checks"
 	"verif/sim/core"
+	"verif/sim/tape"
 )
 
 func main() {
@@ -35,6 +37,18 @@ func main() {
 			os.Exit(2)
 		}
 		os.Exit(core.RunReplay(c, rf))
+	case "one":
+		// debugging aid: verif one <id> <run-seed> [tier]
+		c := checks.Get(os.Args[2])
+		rs, _ := strconv.ParseUint(os.Args[3], 10, 64)
+		tier := "quick"
+		if len(os.Args) > 4 {
+			tier = os.Args[4]
+		}
+		res := c.Run(tape.New(rs), core.RunOpt{Tier: tier, WantSample: true, Replay: true})
+		b, _ := json.MarshalIndent(res, "", " ")
+		fmt.Println(string(b))
+		os.Exit(0)
 	case "check", "worker":
 		id := os.Args[2]
 		fs := flag.NewFlagSet(cmd, flag.ExitOnError)
